@@ -50,9 +50,8 @@ def ids_arg(ids):
     return ",".join(map(str, ids)) if ids else "-"
 
 
-def gen_ops(rng, sim, n, ops, recent, allow_bad=True):
+def gen_ops(rng, sim, n, ops, recent, ks, allow_bad=True):
     """append ~n random ops"""
-    ks = rng.choice([[1, 1, 1, 2], [1, 2, 3, 5], [0, 1, 3, 100], [5, 100, 100]] * 3 + [[1, 100, 65535]])
     rel_w = rng.choice([0.25, 0.4, 0.55])
     for _ in range(n):
         r = rng.random()
@@ -131,12 +130,17 @@ def gen(rng):
         ids = rng.sample(range(1, 15), k)
         sim.out.update(ids); recent.extend(ids)
         ops.append(f"mark {ids_arg(ids)}")
-    if limit == 65535 and rng.random() < 0.1:
+    ks = rng.choice([[1, 1, 1, 2], [1, 2, 3, 5], [0, 1, 3, 100], [5, 100, 100]] * 3 + [[1, 100, 65535]])
+    full = limit == 65535 and rng.random() < 0.1
+    # contract-violating marks are kept away from histories that can fill the whole id space: there they can wedge
+    # the limiter (see SPIN_CASE), and a wedged limiter leaves a goroutine spinning in the driver process for good
+    allow_bad = not (limit == 65535 and (full or 65535 in ks))
+    if full:
         # nearly full id space: everything handed out, holes punched, cursor has wrapped to 1
         ops.append("poll 65535"); sim.poll(65535)
         holes = sorted(set(rng.choice([1, 2, 3, 100, 4096, 65534, 65535, rng.randint(1, MAXID)]) for _ in range(rng.randint(1, 6))))
         ops.append(f"brelease {ids_arg(holes)}"); sim.out.difference_update(holes); recent.extend(holes)
-    gen_ops(rng, sim, rng.choice([4, 12, 30, 80]), ops, recent)
+    gen_ops(rng, sim, rng.choice([4, 12, 30, 80]), ops, recent, ks, allow_bad)
     ops.append("dump")
     return ops
 
@@ -305,10 +309,12 @@ def nontrivial(ops, out):
 
 
 def streams(tier):
-    n = 10000 if tier == "quick" else 300000
+    n = 7000 if tier == "quick" else 300000
     nlong = 4 if tier == "quick" else 16
-    corpus = [SPIN_CASE] + [gen_long(i) for i in range(nlong)]
-    return [(core.Stream("limiter", "limiter", gen, predicate, nontrivial, keep_prefix=1, corpus=corpus, timeout=600), n)]
+    corpus = [gen_long(i) for i in range(nlong)]
+    return [(core.Stream("limiter", "limiter", gen, predicate, nontrivial, keep_prefix=1, corpus=corpus, timeout=600), n),
+            # own process: the wedged poll keeps spinning in the driver until it exits
+            (core.Stream("limiter-wedge", "limiter", lambda rng: SPIN_CASE, predicate, None, keep_prefix=1, timeout=120), 1)]
 
 
 def run(r):
